@@ -406,6 +406,24 @@ impl Prop for C03 {
 
 use crate::fds::{ino_of, make_pipe, pipe_eof, Pipe};
 
+/// descriptors that only occupy low numbers for a while
+struct Placeholders(Vec<RawFd>);
+
+impl Placeholders {
+    fn release(&mut self) {
+        for fd in self.0.drain(..) {
+            // SAFETY: opened by the harness, owned by this value.
+            unsafe { libc::close(fd) };
+        }
+    }
+}
+
+impl Drop for Placeholders {
+    fn drop(&mut self) {
+        self.release();
+    }
+}
+
 pub struct C12;
 
 impl Prop for C12 {
@@ -468,7 +486,8 @@ impl Prop for C12 {
         // 2 = pop only at the end (the owner calls try_read again before popping)
         c.drop_mode = rng.below(3) as u8;
         c.use_fd0 = rng.chance(1, 400);
-        c.real_socket = rng.chance(1, 25);
+        c.real_socket = rng.chance(1, 40);
+        c.low_fd_later = !c.use_fd0 && !c.real_socket && rng.chance(1, 12);
         c.to_json()
     }
     fn exec(&self, case: &J, st: &mut Stats) -> Result<RunOut, String> {
@@ -483,7 +502,13 @@ impl Prop for C12 {
         let sched: &[gen::SOp] = case.scheds.first().map(|s| s.as_slice()).unwrap_or(&[]);
         // descriptor numbers are process-wide: a run that uses number 0 has the table for itself
         let (_shared, _exclusive);
-        if case.use_fd0 {
+        let mut placeholders = Placeholders(Vec::new());
+        if case.real_socket && !case.use_fd0 {
+            // the kernel picks the numbers of descriptors received over a real socket (lowest free,
+            // process-wide): such a run has the descriptor table for itself
+            _exclusive = Some(crate::fds::FD0_LOCK.write().unwrap_or_else(|e| e.into_inner()));
+            _shared = None;
+        } else if case.use_fd0 {
             _exclusive = Some(crate::fds::FD0_LOCK.write().unwrap_or_else(|e| e.into_inner()));
             _shared = None;
             // number 0 is normally occupied (stdin or a placeholder), so that no other run ever gets it;
@@ -493,6 +518,13 @@ impl Prop for C12 {
         } else {
             _shared = Some(crate::fds::FD0_LOCK.read().unwrap_or_else(|e| e.into_inner()));
             _exclusive = None;
+        }
+        if case.low_fd_later && !case.use_fd0 && !case.real_socket {
+            for _ in 0..6 {
+                if let Some(fd) = crate::fds::open_placeholder() {
+                    placeholders.0.push(fd);
+                }
+            }
         }
         if case.real_socket {
             let out = exec_real_socket(&case, &m, sched, st);
@@ -558,6 +590,9 @@ impl Prop for C12 {
                                 unsafe { libc::close(low) };
                             }
                         }
+                        if wr != 0 {
+                            wr = crate::fds::into_region(wr);
+                        }
                         conn.sh.borrow_mut().fd_pool.push(wr);
                         new_pipes.push(p);
                     }
@@ -592,6 +627,11 @@ impl Prop for C12 {
                 unsafe { libc::close(fd) };
             }
             new_pipes.truncate(given);
+            if given > 0 && !placeholders.0.is_empty() {
+                // from now on the lowest free numbers are lower than those already handed over
+                placeholders.release();
+                st.probe("later_descriptors_have_lower_numbers");
+            }
             if given > 0 {
                 st.fault("F-fdspread");
                 st.probe_n("descriptors_passed", given as u64);
@@ -739,6 +779,7 @@ impl Prop for C12 {
             }
         }
         drop(sh);
+        placeholders.release();
         if case.use_fd0 {
             // a library that leaked descriptor 0 must not poison later runs (we hold the table exclusively)
             crate::fds::reoccupy_fd0();
